@@ -250,7 +250,8 @@ class ClimateNetwork(GeoNetwork):
         grid = GeoGrid.Load(filename_grid)
 
         #  Load similarity measure
-        similarity_measure = np.load(filename_similarity_measure)
+        similarity_measure = np.load(filename_similarity_measure,
+                                     allow_pickle=True)
 
         #  Load to igraph Graph object
         graph = igraph.Graph.Read(f=filename_network, format=fileformat,
@@ -260,14 +261,14 @@ class ClimateNetwork(GeoNetwork):
         A = np.array(graph.get_adjacency(type=2).data)
 
         #  Extract node weights
-        if "node_weight_nsi" in graph.vs.attribute_names():
-            node_weights = np.array(
-                graph.vs.get_attribute_values("node_weight_nsi"))
-        else:
-            node_weights = None
+        node_weights = GeoNetwork._node_weights_from_graph(graph)
 
-        #  Create ClimateNetwork instance
+        #  Create ClimateNetwork instance. The threshold is not stored: start
+        #  from the link density of the stored network, then install the
+        #  stored adjacency matrix itself.
+        N = A.shape[0]
         net = ClimateNetwork(grid=grid, similarity_measure=similarity_measure,
+                             link_density=A.sum() / max(N * (N - 1), 1),
                              directed=graph.is_directed(),
                              silence_level=silence_level)
         net.adjacency = A
